@@ -485,7 +485,8 @@ def check_modifiers(ctx, rep, tier):
                 rep.ob('extra writers keep modifiers', 1)
         except Undecided as u:
             rep.finding('C04 extra-writer %s undecided' % p, 'function %s writes or mutably borrows the modifier state and could not be analysed: %s' % (p, u))
-    leaks = returns_mut_ref_to(ctx, {'Modifiers', ED})
+    # (a private helper that returns `&mut Modifiers` to its caller inside the crate is just code structure)
+    leaks = [p for p in returns_mut_ref_to(ctx, {'Modifiers', ED}) if ctx.prog.fns[p]['vis'] == 'pub' and not ctx.prog.fns[p].get('closure_of')]
     for p in leaks:
         rep.finding('C04 mut-ref-leak %s' % p, 'function %s hands out a mutable reference to the modifier state' % p)
     rep.ob('no &mut Modifiers escapes', 1, 0 if leaks else 1)
